@@ -30,6 +30,7 @@ type scen struct {
 	Events      []string
 	Ticker      bool          // harness ticker + poller task
 	Interval    time.Duration // real ticker with this interval (virtual time); 0 = polling disabled unless Ticker
+	Latency     time.Duration // every service request takes this long (virtual time)
 	Outcomes    []string      // service outcomes offered to the explorer per request (nil = always ok)
 	OutcomesFor map[string][]string
 	UseTime     bool
@@ -263,6 +264,7 @@ func (sc *scen) harness(props map[string]bool, out *[]violation) func() *sched.H
 				r.st = st
 				// from here on the service parks at seams and offers outcomes
 				r.svc.Seams = true
+				r.svc.Latency = sc.Latency
 				r.cache.Seams = true
 				if sc.Outcomes != nil || sc.OutcomesFor != nil {
 					r.svc.Outcomes = func(name string) []string {
@@ -354,6 +356,7 @@ func (sc *scen) harness(props map[string]bool, out *[]violation) func() *sched.H
 					c()
 				}
 				r.svc.Seams = false
+				r.svc.Latency = 0
 				r.svc.Outcomes = nil
 				close(r.svc.Release)
 				// let every poll round and lookup still in flight finish first: a Refresh that joins a round
@@ -794,11 +797,18 @@ func (r *run) judge() {
 	}
 	// cadence of the background poller (real time.Ticker under the virtual clock)
 	if iv := r.sc.Interval; iv > 0 {
+		// a poll round asks for each name at most once: a name that repeats starts the next round
 		var at []time.Duration
+		inRound := map[string]bool{}
 		for _, q := range r.svc.Log[:min(r.logAtEnd, len(r.svc.Log))] {
-			if q.Cond && (len(at) == 0 || q.At != at[len(at)-1]) {
-				at = append(at, q.At)
+			if !q.Cond {
+				continue
 			}
+			if len(at) == 0 || inRound[q.Name] {
+				at = append(at, q.At)
+				inRound = map[string]bool{}
+			}
+			inRound[q.Name] = true
 		}
 		lo, hi := iv-iv/10, iv+iv/10
 		prev := time.Duration(0)
